@@ -479,7 +479,7 @@ func init() {
 		for i := 0; i < n; i++ {
 			gaps := []int{1, 5, 126, 127, 128, 129, 200, 254, 255, 256, 300}[r.Intn(11)]
 			// alternate gap / chunk; random small widths; optional chunk at 0 and at the end
-			var chunks []seg
+			chunks := []seg{}
 			pos := 0
 			if r.Intn(2) == 0 {
 				w := 1 + r.Intn(3)
